@@ -25,7 +25,7 @@ def to_trace_record(i, rec, ref=None, chkdepth=False):
     }
 
 
-def validate(records, workdir, tag='vm', max_events=30000, jvms=4, workers=4, timeout=1200):
+def validate(records, workdir, tag='vm', max_events=20000, jvms=6, workers=3, timeout=1200):
     """records: list of TraceVM input records (ids are positions). Returns (verdicts by id, [TLCResult])."""
     batches = []
     cur, n = [], 0
